@@ -124,7 +124,7 @@ func runC02(c *Ctx) {
 					Bound: f.bound,
 					Cfg:   vrt.Config{Horizon: int64(600 * time.Second)},
 					Body: func() {
-						run = rcExecute(&rcCfg{Reqs: reqs, Faults: f.faults, KeepSession: true, MethodB: mb})
+						rcExecuteInto(&rcCfg{Reqs: reqs, Faults: f.faults, KeepSession: true, MethodB: mb}, &run)
 						c02Oracle(run)
 					},
 					Observe: func() uint64 { return run.net.TraceHash() },
@@ -267,7 +267,7 @@ func runC03(c *Ctx) {
 				Bound: f.bound,
 				Cfg:   vrt.Config{Horizon: int64(600 * time.Second)},
 				Body: func() {
-					run = rcExecute(&rcCfg{Reqs: reqs, Faults: f.faults, KeepSession: true})
+					rcExecuteInto(&rcCfg{Reqs: reqs, Faults: f.faults, KeepSession: true}, &run)
 					c03Oracle(run)
 				},
 				Observe: func() uint64 { return run.net.TraceHash() },
@@ -370,7 +370,7 @@ func runC12(c *Ctx) {
 				Bound: f.bound,
 				Cfg:   vrt.Config{Horizon: int64(600 * time.Second)},
 				Body: func() {
-					run = rcExecute(&rcCfg{Reqs: reqs, Faults: f.faults, KeepSession: true})
+					rcExecuteInto(&rcCfg{Reqs: reqs, Faults: f.faults, KeepSession: true}, &run)
 					if run.connectOK {
 						c12Oracle(run.net, func(k string) string { return k + ":faults=" + run.faultKinds() }, run.summary)
 					}
